@@ -26,7 +26,7 @@ CHECKS = {
          "Every handler program of length <=4 (quick, 7.4k) / <=5 (thorough, 66k) over WriteHeader/Write(0,1,3)/Set/Del steps: same status, same headers as sent except Content-Length, zero body bytes, Content-Length = bytes written when the handler sends no header itself. Every history of depth <=4/6 on a pattern with a splitting sibling, with and without WithTrace: HEAD iff GET with GET's handler, OPTIONS iff live, reserved/unknown registrations rejected without effect.",
          "The wire.Writer models net/http only as far as 'when is the header block sent'.", "4/C08"),
  "C09": ("S", "explicit-state BFS over programs of configuration calls (Use / Prefix / nested Prefix / Resource / Handle with middlewares / Remove / Clean; Group.Use/New/Add) on the real router, onion-order reference model on every state",
-         "Every program up to depth 5 (quick) / 7 (thorough), with and without WithTrace, and group programs: for each handler kind of each live pattern and for 404, TRACE, OPTIONS *, the '*' 405 and the group not-found, the wrapper chain seen at request time equals the documented order; each wrapper stems from exactly one factory call with the right (method, pattern, router); each step causes exactly the predicted number of factory invocations.",
+         "Every program up to depth 5 (quick) / 6 (thorough), with and without WithTrace, and group programs: for each handler kind of each live pattern and for 404, TRACE, OPTIONS *, the '*' 405 and the group not-found, the wrapper chain seen at request time equals the documented order; each wrapper stems from exactly one factory call with the right (method, pattern, router); each step causes exactly the predicted number of factory invocations.",
          "Bounded depth; fixed middleware names and facade objects (P1=/p[D], P2=P1/q[E,F], R=P1/r/{id}[G]).", "4/C09"),
  "C10": ("I", "exhaustive small-scope enumeration: patterns x all params maps over a value set x every URL entry point and mode x route-table situations, against an independent tokenizer/instantiator; round trip over every dispatch observed on all tables of <=2 patterns",
          "Every pattern of the dispatch pool under three interceptor sets plus one malformed pattern per documented error class; every params map over the pattern's names plus an extra key with each key absent or bound to one of 10 values (1.15M URL calls): mux.URL, Router.URL strict/non-strict with three URL-domain spellings, Prefix.URL at three cuts, Resource.URL; strict mode where the pattern is live, removed again, only structural, or absent. Every (path, route, params) produced by dispatch is fed back through URL strict and non-strict.",
